@@ -180,7 +180,7 @@ func c18Whole(items []topItem, i int) c18Obs {
 	var out bytes.Buffer
 	vm := goat.New(goat.WithStdout(&out))
 	goat.VerifSetBudget(400000)
-	rets, err := vm.Eval(fstest.MapFS{}, "repl.go", c18Source(items, 0, i), goat.WithEvalImports(map[string]string{}))
+	rets, err := vm.Eval(c18FS, "repl.go", c18Source(items, 0, i), goat.WithEvalImports(map[string]string{}))
 	goat.VerifSetBudget(-1)
 	return c18Observe(vm, &out, rets, err)
 }
@@ -278,6 +278,11 @@ var c18PoolStmts = []poolStmt{
 	{"late = late + total", []string{"late", "total"}, nil},
 }
 
+// c18FS: script packages the statements may import: one with package-level state and an init function
+var c18FS = fstest.MapFS{
+	"counter/counter.go": &fstest.MapFile{Data: []byte("package counter\n\nvar n = 0\n\nvar Loads int\n\nfunc init() {\n\tLoads++\n}\n\nfunc Next() int {\n\tn++\n\treturn n\n}\n\nfunc Seen() int {\n\treturn n*10 + Loads\n}\n")},
+}
+
 var c18PoolFinals = []poolStmt{
 	{"total", []string{"total"}, nil}, {"scale", []string{"scale"}, nil}, {"name + \"!\"", []string{"name"}, nil},
 	{"add(1, 2)", []string{"add"}, nil}, {"b", []string{"b"}, nil}, {"total + 1", []string{"total"}, nil}, {"late", []string{"late"}, nil},
@@ -295,6 +300,7 @@ var c18Scenarios = [][]string{
 	{"var hits int = 0", "func hit() int {\n\thits += 2\n\treturn hits\n}", "switch hit() {\ncase 2:\n\tprintln(\"two\")\n}", "bonus := 10", "func score() int {\n\treturn hits*100 + bonus\n}", "println(score())", "var late int", "late = score()", "late"},
 	{"xs := []int{3, 1, 2}", "import \"golang.org/x/exp/slices\"", "slices.SortFunc(xs, func(a, b int) bool {\n\treturn a < b\n})", "println(xs[0], xs[1], xs[2])", "slices.SortFunc(xs, func(a, b int) bool {\n\treturn a > b\n})", "println(xs[0], xs[1], xs[2])", "len(xs)"},
 	{"import \"fmt\"", "func println(s string) {\n\tfmt.Print(\"<\" + s + \">\")\n}", "println(\"hi\")", "func emit() {\n\tprintln(\"in\")\n}", "emit()", "func print(s string) int {\n\tfmt.Print(\"[\" + s + \"]\")\n\treturn len(s)\n}", "n := print(\"abc\")", "println(\"bye\")", "n"},
+	{"import \"counter\"", "a := counter.Next()", "b := counter.Next()", "println(a, b, counter.Next(), counter.Seen())", "c := counter.Next() + a", "println(counter.Seen())", "a + b + c"},
 	{"func area(w, h int) int {\n\treturn w * h\n}", "println(area(2, 3))", "func area(w, h, d int) int {\n\treturn w * h * d\n}", "println(area(2, 3, 4))", "func total(xs ...int) int {\n\treturn len(xs)\n}", "println(total(), total(1, 2))", "area(1, 1, 1)"},
 }
 
@@ -384,7 +390,7 @@ func checkC18(c *Ctx) {
 			var ierr error
 			for k := 0; k < len(items) && ierr == nil; k++ {
 				goat.VerifSetBudget(400000)
-				_, ierr = vm.Eval(fstest.MapFS{}, "repl.go", c18Source(items, k, k+1), goat.WithEvalImports(imports))
+				_, ierr = vm.Eval(c18FS, "repl.go", c18Source(items, k, k+1), goat.WithEvalImports(imports))
 				goat.VerifSetBudget(-1)
 			}
 			if ierr == nil && !strings.Contains(whole.Error, goat.VerifBudgetMsg) {
@@ -447,7 +453,7 @@ func checkC18(c *Ctx) {
 		pos := 0
 		for ci, k := range rec.Cuts {
 			goat.VerifSetBudget(400000)
-			rets, err := vm.Eval(fstest.MapFS{}, "repl.go", c18Source(pg.items, pos, pos+k), goat.WithEvalImports(imports))
+			rets, err := vm.Eval(c18FS, "repl.go", c18Source(pg.items, pos, pos+k), goat.WithEvalImports(imports))
 			goat.VerifSetBudget(-1)
 			pos += k
 			c.Evaluations++
